@@ -26,7 +26,7 @@ import lib_plex
 
 PROP = "C50"
 LIB = os.path.join(os.path.dirname(os.path.dirname(os.path.abspath(__file__))), "lib_plex.py")
-JAVA_ENV = {"JAVA_TOOL_OPTIONS": "-Xss64m"}      # the recursive operators need deep worker stacks
+JAVA_ENV = {"JAVA_TOOL_OPTIONS": "-Xss64m -Xmx4g -XX:ParallelGCThreads=4"}   # the recursive operators need deep worker stacks
 
 
 def tlc_env(seed, nlex, first):
@@ -149,33 +149,29 @@ def run(tier, seed):
     cov = {"tlc": []}
     nproc = min(core.NCPU, 16)
 
+    # 1. + 2. run in the background while the case batches are explored and bound:
     # 1. the strict form of the property on the model: TLC must find the end-of-file hazard
-    strict = core.tlc("Plex", cfg="Plex_strict", env=tlc_env(seed, 0, 1), timeout=600)
-    cov["tlc"].append(dict(strict.summary(), config="strict: core lexicons, MaxLen=2, INVARIANT ImplAgrees", result=str(strict.violation)))
-    if strict.violation != "ImplAgrees":
-        sys.stderr.write(strict.out[-3000:])
-        core.die("Plex_strict: expected TLC to refute ImplAgrees (end-of-file hazard of the model), got %r" % strict.violation)
-
-    # 2. declarative statement of the property on the implementation-shaped tokens (+ action coverage)
-    ndecl = 12 if tier == "quick" else 150
-    decl = core.tlc_or_die("Plex", cfg="Plex_decl", env=tlc_env(seed, ndecl, 5001), timeout=3000)
-    cov["tlc"].append(dict(decl.summary(), config="decl: core + %d generated lexicons, MaxLen=4, ImplTokensAreBest, "
-                                                  "ErrorIffNoRuleMatches, ImplAgreesOffHazards" % ndecl))
-    if decl.depth != 4:
-        core.die("Plex_decl: search depth %d, expected root -> id -> lexicon -> case" % decl.depth)
+    # 2. the declarative statement of the property on the implementation-shaped tokens
+    ndecl = 6 if tier == "quick" else 100
+    side = concurrent.futures.ThreadPoolExecutor(max_workers=2)
+    f_strict = side.submit(core.tlc, "Plex", cfg="Plex_strict", env=tlc_env(seed, 0, 1), timeout=900, workers=2)
+    time.sleep(0.2)
+    f_decl = side.submit(core.tlc, "Plex", cfg="Plex_decl", env=tlc_env(seed, ndecl, 5001), timeout=3000,
+                         workers=4 if tier == "quick" else 8)
+    time.sleep(0.2)
 
     # 3. the cases: batches of generated lexicons (the first batch also has the hand-written ones)
     if tier == "quick":
-        batches = [("Plex_quick", 100, 1)]
+        batches = [("Plex_quick", 70, 1)]
     else:
-        batches = [("Plex_quick", 300, 1)] + [("Plex_batch", 300, 1 + 300 * k) for k in range(1, 6)] + [("Plex_deep", 30, 9001)]
+        batches = [("Plex_quick", 250, 1)] + [("Plex_batch", 250, 1 + 250 * k) for k in range(1, 3)] + [("Plex_deep", 10, 9001)]
     st = {k: 0 for k in ("end_eof", "end_error", "end_stuck", "end_eofc", "tie", "backup", "hazard", "tokens", "multi_line_pos",
                          "nontrivial", "dfa_states_max", "lexicon_states")}
     st["lexkeys"] = set()
     stats = {"scans": 0, "cases": 0, "mismatch_records": 0}
     samples = []
     selftest = None
-    states = strict.generated + decl.generated
+    states = 0
     for cfg, nlex, first in batches:
         r = core.tlc_or_die("Plex", cfg=cfg, env=tlc_env(seed, nlex, first), timeout=3000)
         cov["tlc"].append(dict(r.summary(), config="%s: %d generated lexicons from family index %d, seed %d" % (cfg, nlex, first, seed)))
@@ -201,6 +197,21 @@ def run(tier, seed):
                 c = rng.choice([c for c in j["cases"] if len(c[1]) >= 2] or j["cases"])
                 samples.append({"lexicon": j["rules"], "text": lib_plex.real_text(c[0]), "expected_tokens": c[1], "expected_end": c[2]})
         del jobs
+
+    strict, decl = f_strict.result(), f_decl.result()
+    side.shutdown()
+    cov["tlc"].append(dict(strict.summary(), config="strict: hand-written lexicons, MaxLen=2, INVARIANT ImplAgrees", result=str(strict.violation)))
+    if strict.violation != "ImplAgrees":
+        sys.stderr.write(strict.out[-3000:])
+        core.die("Plex_strict: expected TLC to refute ImplAgrees (end-of-file hazard of the model), got %r" % strict.violation)
+    cov["tlc"].append(dict(decl.summary(), config="decl: hand-written + %d generated lexicons, MaxLen=4, RefChoiceIsBest, ImplTokensAreBest, "
+                                                  "ErrorIffNoRuleMatches, ImplAgreesOffHazards" % ndecl))
+    if not decl.ok:
+        sys.stderr.write(decl.out[-4000:])
+        core.die("Plex_decl: TLC failed (%s)" % (decl.violation or decl.rc))
+    if decl.depth != 4:
+        core.die("Plex_decl: search depth %d, expected root -> id -> lexicon -> case" % decl.depth)
+    states += strict.generated + decl.generated
 
     # vacuity guard on the model's own case classes
     for k in ("end_eof", "end_error", "end_stuck", "end_eofc", "tie", "backup", "hazard", "multi_line_pos"):
